@@ -244,7 +244,7 @@ fn boxes(seed: u64, k: usize, square: bool) -> [f64; 4] {
 }
 
 fn enumerate(tier: Tier, seed: u64) -> Vec<Case> {
-    let reps = tier.n(6, 40);
+    let reps = tier.n(6, 120);
     let mut cases = Vec::new();
     for shape in ["rect", "circle", "ellipse", "line"] {
         let mut items: Vec<Item> = Vec::new();
@@ -303,7 +303,7 @@ impl Property for C11 {
     }
     fn rule(&self) -> String {
         "bounded-exhaustive over the discrete part: shapes {rect, circle, ellipse, line} x the 6x6 per-axis constraint pairs from {start, end, centre, length} x spellings (longhand; every applicable shorthand xy cxy xy1 xy2 wh rxy; x vs x1; width vs r/rx/ry; one value vs two; space, comma, comma-space) x deltas (none, dxy, dx+dy, dwh, dw+dh absolute, dw/dh percent where the axis has a length spelled width/height); \
-         boxes are drawn per combination from a seeded sequence on a 1/4 grid (negative, fractional; squares for circles), 2 boxes per combination quick / 40 thorough; 40 items share one document. \
+         boxes are drawn per combination from a seeded sequence on a 1/4 grid (negative, fractional; squares for circles), 2 boxes per combination quick / 120 thorough; 40 items share one document. \
          Oracle: the output element carries exactly its shape's native geometry attributes with the values of the intended box (tolerance 0.0011), line direction as given by start/end, and no other geometry or shorthand attribute is left behind. \
          Non-trivial = the per-axis pairs are not the shape's native pair written longhand; distinct by hash of the case."
             .into()
